@@ -3,10 +3,67 @@ from checks import histcheck
 from vlib.hyp import run_property
 
 FLAGS = {"C05": 1}
-strategy, body, replay = histcheck.make(
+strategy, body, _hist_replay = histcheck.make(
     "C05", FLAGS, ("C05:", "EXC:"),
     lambda st, summ: bool(st.get("accepted") and (st.get("events_with>=2_in_flight") or summ["restarts"])),
 )
+
+
+def _shape_worker(job):
+    """All 0/1 reach shapes of k plus-ensembles (every multiset of staircase rows, sorted arrangement and its reverse), nothing
+    busy or one ensemble busy: the first draw of pick() - a choice over the flattened probability matrix - must be possible."""
+    import itertools
+
+    import numpy as np
+
+    from checks import C02
+    from vlib.cli import Rec
+    from vlib.oracles import perm as oracle
+
+    pid, k, multisets = job
+    rec = Rec(pid)
+    state = C02.new_state()
+    for ms in multisets:
+        rows = [[1.0] * c + [0.0] * (k - c) for c in ms]
+        for slots in (tuple(range(k)), tuple(range(k - 1, -1, -1))):
+            W = C02.build_W(k, rows, slots)
+            for busy in [None] + list(range(k + 1)):
+                locks = [1 if i == busy else 0 for i in range(k + 1)] + [1]
+                idx, block = C02.idle_block(W, locks)
+                per, _ = oracle.matching_probs(C02.as_exact(block, True))
+                info = f"k={k} reach-by-slot={[ms[slots[s]] for s in range(k)]} busy={busy}"
+                if per == 0:
+                    rec.case(key=None, classes=["shapes:no-perfect-matching(not-a-sampler-state)"])
+                    continue
+                rec.case(key=[k, list(ms), list(slots), busy], nontrivial=len(set(ms)) >= 2, classes=["shapes", f"shapes:k={k}"],
+                         sample={"k": k, "reach_by_slot": [ms[slots[s]] for s in range(k)], "busy": busy} if len(rec.samples) < 1 and len(set(ms)) >= 2 else None)
+                try:
+                    prob = state.inf_retis(W.copy(), np.array(locks, dtype=float))
+                    flat = np.asarray(prob).astype("float64").flatten()
+                    np.random.default_rng(1).choice(len(flat), p=np.nan_to_num(flat / np.sum(flat)))  # what pick() does first
+                    for a in idx:
+                        col = np.asarray(prob).astype("float64")[:, a].flatten()
+                        np.random.default_rng(2).choice(len(col), p=np.nan_to_num(col / np.sum(col)))  # ... and then for the chosen ensemble
+                except Exception as exc:  # noqa: BLE001
+                    rec.violation("C05:no-job-can-be-drawn:" + type(exc).__name__, f"{info}: {exc!r}; min entry {float(np.min(prob)) if 'prob' in dir() else None}",
+                                  {"part": "shapes", "k": k, "ms": list(ms), "slots": list(slots), "busy": busy})
+    return rec
+
+
+def run_shapes(ctx):
+    import itertools
+
+    from vlib.hyp import pmap
+
+    jobs = []
+    for k in (2, 3, 4, 5, 6):
+        multisets = list(itertools.combinations_with_replacement(range(1, k + 1), k))
+        chunk = max(1, len(multisets) // 16)
+        for i in range(0, len(multisets), chunk):
+            jobs.append((ctx.pid, k, multisets[i : i + chunk]))
+    for r in pmap(ctx, _shape_worker, jobs):
+        ctx.merge(r)
+    ctx.note("shapes_scope", "all multisets of 0/1 staircase rows for 2..6 plus-ensembles, sorted and reversed arrangement, nothing busy / each single ensemble busy (exhaustive)")
 
 
 def run(ctx):
@@ -20,4 +77,13 @@ def run(ctx):
     from checks import enumsys
 
     enumsys.run_enum(ctx, dict(FLAGS), ("C05:", "EXC:"), ())
+    run_shapes(ctx)
     run_property(ctx, "history", strategy, body, ctx.pick(1200, 12000), shards=ctx.procs, shrink=not ctx.quick)
+
+
+def replay(ctx, data):
+    if data.get("part") == "shapes":
+        r = _shape_worker((ctx.pid, data["k"], [tuple(data["ms"])]))
+        ctx.merge(r)
+        return
+    return _hist_replay(ctx, data)
